@@ -299,7 +299,7 @@ class C02(TwoPass):
     rule = ("base histories (HistGen, flush-per-operation policies, roll-over, GC, delete/re-create) are run once to learn their I/O "
             "event trace; crash images are cut before every kind of event (file creation, set_len, unlink, sync, flush weighted up) and "
             "inside write events at byte offsets {1,3,4,6,7,8,len/2,len-1,random}; each image is opened, a fixed continuation "
-            "workload and a clean restart follow; non-trivial = a roll-over or non-ok outcome occurred; distinct = distinct transcripts")
+            "workload and a clean restart follow; every third image is crashed a second time 0-9 effects into its own recovery and reopened; non-trivial = a roll-over or non-ok outcome occurred; distinct = distinct transcripts")
     oracle_text = ("open of every crash image must succeed; the recovered state must equal the specification state of all completed calls, "
                    "or that plus the in-flight call, or (in-flight truncate/delete only) a partial application where some of the oldest records it targets "
                    "are gone; then the continuation workload and a clean restart must behave exactly as the specification from the recovered state")
@@ -312,6 +312,14 @@ class C02(TwoPass):
             case = prefix + ["crash %d %d" % (cut, k), "open af"] + continuation(rng, names)
             out.append(("%s_c%d_%d" % (bid, cut, k), case))
             self.stats["crash_images"] = self.stats.get("crash_images", 0) + 1
+            if self.stats["crash_images"] % 3 == 0:
+                # a second crash during the recovery's own effects (set_len of the last file, position
+                # entries of the recovery-time GC, unlinks, syncs): cut 0..9 events after the first image
+                cut2 = cut + (1 if k else 0) + rng.randrange(0, 10)
+                k2 = rng.choice([0, 0, 1, 3, 6, 7, 8, 12, 19])
+                case2 = prefix + ["crash %d %d" % (cut, k), "open af", "crash %d %d" % (cut2, k2), "open af"] + continuation(rng, names)
+                out.append(("%s_c%d_%d_cc%d_%d" % (bid, cut, k, cut2, k2), case2))
+                self.stats["second_crashes"] = self.stats.get("second_crashes", 0) + 1
             if k:
                 self.stats["torn_writes"] = self.stats.get("torn_writes", 0) + 1
         return out
@@ -375,8 +383,19 @@ class C02(TwoPass):
             vs.append({"msg": "crash before event %d (in cmd %d `%s`): recovered state is neither the completed calls nor those plus the in-flight one: got %r, completed %r" % (
                 cut, j, prefix[j] if j < len(prefix) else "-", summarize(R), summarize(ref_obs(states[j]))), "shape": "crash-state"})
             return vs
+        nxt = ci + 2
+        if nxt < len(cmds) and cmds[nxt].startswith("crash ") and nxt + 1 < len(tr):
+            o2 = tr[nxt + 1]
+            if outcome_of(o2) != "out open ok":
+                vs.append({"msg": "second crash (`%s`) during the recovery from `%s`: open failed: %r" % (cmds[nxt], cmds[ci], outcome_of(o2)), "shape": "second-crash"})
+                return vs
+            if logical(obs_of(o2)) != R:
+                vs.append({"msg": "second crash (`%s`) during the recovery from `%s`: recovered %r, the first recovery had %r" % (
+                    cmds[nxt], cmds[ci], summarize(logical(obs_of(o2))), summarize(R)), "shape": "second-crash"})
+                return vs
+            nxt += 2
         if matched is not None:
-            check_continuation(cmds, tr, ci + 2, matched.copy(), vs, "crash-continuation")
+            check_continuation(cmds, tr, nxt, matched.copy(), vs, "crash-continuation")
         return vs
 
 
